@@ -481,6 +481,22 @@ def _bind_lifetime(ctx, dataset_descs, lt):
                     got_raised = False
                 except KeyError:
                     got, got_raised = 'raised', True
+                # reference: the same code on a registry without history -- the same registrations in the same order, made
+                # before anything was ever detected.  "A function of the dataset's content alone": what was detected,
+                # accessed or registered *earlier* must not show in the answer.
+                fresh_reg = _registry.ConventionRegistry()
+                for c_ in registered:
+                    fresh_reg.add_convention(c_)
+                try:
+                    fresh_got = fresh_reg.guess_convention(ds)
+                except KeyError:
+                    fresh_got = 'raised'
+                if fresh_got is not got:
+                    fail('history-dependent-detection',
+                         f'dataset #{h}: detected as {getattr(got, "__name__", got)}, but a registry given the same registrations in the same order '
+                         f'before any detection says {getattr(fresh_got, "__name__", fresh_got)}')
+                else:
+                    probe('detect_agrees_with_fresh_registry')
                 if allowed is None:
                     # a (broken) plug-in raises from check_dataset for this dataset: the statement does not say what
                     # detection must do then, only that the answer is a function of content: it must be repeatable
